@@ -171,3 +171,55 @@ func MapOrder(w io.Writer, m map[string]string) {
 }
 
 var _ = errors.New
+
+// StaleLength: the length is taken once, the node grows, the old length is used.
+func StaleLength(n *CandidateNode, idx int) *CandidateNode {
+	l := len(n.Content)
+	for len(n.Content) <= idx {
+		grow(n)
+	}
+	if idx < 0 {
+		idx = l + idx
+	}
+	return n.Content[idx]
+}
+
+func grow(n *CandidateNode) {
+	n.Content = append(n.Content, &CandidateNode{})
+}
+
+// FreshLength: the same with the length re-taken (must not fire).
+func FreshLength(n *CandidateNode, idx int) *CandidateNode {
+	l := len(n.Content)
+	for l <= idx {
+		grow(n)
+		l = len(n.Content)
+	}
+	if idx < 0 {
+		idx = l + idx
+	}
+	return n.Content[idx]
+}
+
+type walkPreferences struct {
+	DontFollow bool
+	Deep       bool
+}
+
+func walk(n *CandidateNode, p walkPreferences) int {
+	if p.Deep {
+		return len(n.Content)
+	}
+	return 0
+}
+
+// DropsPrefs: receives preferences, hands on a fresh literal.
+func DropsPrefs(n *CandidateNode, p walkPreferences) int {
+	return walk(n, walkPreferences{DontFollow: p.DontFollow})
+}
+
+// ForwardsPrefs: a copy with one field overridden (must not fire).
+func ForwardsPrefs(n *CandidateNode, p walkPreferences) int {
+	p.Deep = true
+	return walk(n, p)
+}
